@@ -381,31 +381,41 @@ Proof.
   destruct Hc as [_ Hu]. apply make_unique_name_fresh in Hu. tauto.
 Qed.
 
+Lemma out_name_inj orig merge a b : NoDup (names merge) -> In a merge -> In b merge ->
+  out_name orig merge a = out_name orig merge b -> a = b.
+Proof.
+  intros Hn Ha Hb E.
+  destruct (out_name_cases orig merge a Ha) as [Ea|(Ea1 & _ & ja & Ea2)],
+           (out_name_cases orig merge b Hb) as [Eb|(Eb1 & _ & jb & Eb2)].
+  - eapply nodup_names_inj; eauto. congruence.
+  - exfalso. apply Eb1. rewrite <- E, Ea. apply in_map; exact Ha.
+  - exfalso. apply Ea1. rewrite E, Eb. apply in_map; exact Hb.
+  - eapply nodup_names_inj; eauto. rewrite Ea2, Eb2 in E. eapply candidate_name_inj; exact E.
+Qed.
+
+(** the names of the added elements are pairwise different (A's names play no role here) *)
+Lemma added_names_nodup orig merge : NoDup (names merge) -> NoDup (names (flat_map (repr orig merge) merge)).
+Proof.
+  intros Hn. rewrite names_repr.
+  assert (Hnd : NoDup merge) by (eapply NoDup_map_inv; exact Hn).
+  apply NoDup_map_inj_in; [apply NoDup_filter; exact Hnd|].
+  intros a b Ha Hb. apply filter_In in Ha, Hb. apply out_name_inj; tauto.
+Qed.
+
 (** names stay unique within the namespace *)
 Theorem merge_names_unique orig merge res :
   NoDup (names orig) -> NoDup (names merge) -> merge_ns orig merge = Some res -> NoDup (names res).
 Proof.
   intros Ho Hn Hres. rewrite merge_ns_spec in Hres by exact Hn. inversion Hres; subst res; clear Hres.
   unfold names at 1. rewrite map_app. fold (names orig). fold (names (flat_map (repr orig merge) merge)).
-  apply NoDup_app_iff. split; [exact Ho|]. rewrite names_repr. split.
-  - (* the added names are pairwise different *)
-    assert (Hinj : forall a b, In a merge -> In b merge -> out_name orig merge a = out_name orig merge b -> a = b).
-    { intros a b Ha Hb E.
-      destruct (out_name_cases orig merge a Ha) as [Ea|(Ea1 & _ & ja & Ea2)],
-               (out_name_cases orig merge b Hb) as [Eb|(Eb1 & _ & jb & Eb2)].
-      - eapply nodup_names_inj; eauto. congruence.
-      - exfalso. apply Eb1. rewrite <- E, Ea. apply in_map; exact Ha.
-      - exfalso. apply Ea1. rewrite E, Eb. apply in_map; exact Hb.
-      - eapply nodup_names_inj; eauto. rewrite Ea2, Eb2 in E. eapply candidate_name_inj; exact E. }
-    assert (Hnd : NoDup merge) by (eapply NoDup_map_inv; exact Hn).
-    apply NoDup_map_inj_in; [apply NoDup_filter; exact Hnd|].
-    intros a b Ha Hb. apply filter_In in Ha, Hb. apply Hinj; tauto.
-  - (* and different from every name of A *)
-    intros n Hno Hadd. apply in_map_iff in Hadd. destruct Hadd as (m & <- & Hm).
-    apply filter_In in Hm. destruct Hm as [Hm Hact].
-    unfold out_name in Hno. pose proof (classify_cases orig merge m) as Hc.
-    destruct (classify orig merge m) as [| |nn]; simpl in Hact; [discriminate | exact (Hc Hno) |].
-    destruct Hc as [_ Hu]. apply make_unique_name_fresh in Hu. tauto.
+  apply NoDup_app_iff. split; [exact Ho|]. split; [apply added_names_nodup; exact Hn|].
+  (* the added names are different from every name of A *)
+  rewrite names_repr.
+  intros n Hno Hadd. apply in_map_iff in Hadd. destruct Hadd as (m & <- & Hm).
+  apply filter_In in Hm. destruct Hm as [Hm Hact].
+  unfold out_name in Hno. pose proof (classify_cases orig merge m) as Hc.
+  destruct (classify orig merge m) as [| |nn]; simpl in Hact; [discriminate | exact (Hc Hno) |].
+  destruct Hc as [_ Hu]. apply make_unique_name_fresh in Hu. tauto.
 Qed.
 
 (** the neutral cases *)
